@@ -809,6 +809,17 @@ theorem match_direction_tolerance (d s t tol : Rat) :
     mgAlign d s t tol = .ok (false, 0) ↔ ¬ (rabs (d - 1) < tol ∨ rabs (d + 1) < tol) :=
   mgAlign_direction d s t tol
 
+/-! ## frame of reference of the result -/
+
+/-- **The matched volume keeps the SOURCE's frame of reference and coordinate system** (it does not adopt the target's): when
+the source has no frame of reference and the target has one, the result still has none — and compares equal to the target
+because an unknown frame of reference conflicts with nothing (`geometryEqual_iff`). -/
+theorem match_keeps_frame_of_reference {α : Type} (src : Vol α) (tgt : Geom) (tol : Rat) (c : PadMode α) (r : Vol α)
+    (h : matchGeometry src tgt tol c = .ok r) :
+    r.geom.frameOfRef = src.geom.frameOfRef ∧ r.geom.cs = src.geom.cs ∧ NoForConflict r.geom tgt := by
+  obtain ⟨_, ⟨_, _, _, _, _, _, _, _, hcs, hf⟩, hge⟩ := match_only_reachable src tgt tol c r h
+  exact ⟨hf, hcs, ((geometryEqual_iff r.geom tgt _).mp hge).2.2.1⟩
+
 /-! ## matching a volume to its own geometry -/
 
 /-- **`match_geometry(self)` is the identity**: for every well-formed volume, tolerance `0 < tol ≤ 1` and padding mode,
